@@ -22,7 +22,7 @@ JOBS = [
          replayer=FZ_D, wip=False, **L8),
     # C09: bound arithmetic (loop free)
     dict(name='c09_lz4_compress_bound', prop='C09', entry='h_lz4_compress_bound',
-         enforce='carquet_lz4_compress_bound', loop_contracts=False, backend=['z3', 'sat'], wip=True, **L9),
+         enforce='carquet_lz4_compress_bound', loop_contracts=False, backend=['z3', 'sat'], wip=False, **L9),
     # C09: match length counter used by the compressor (inner byte scan unwound: at most 8 steps)
     dict(name='c09_lz4_count', prop='C09', entry='h_lz4_count', enforce='lz4_count',
          unwindset=UW + ['memcpy.0:17'], defines=['CQV_MEMCPY_EXACT=16'], min_loop_obligations=2,
@@ -31,7 +31,7 @@ JOBS = [
          # memcpy(&b, match, 8) into lz4_count's OWN local are reported "not assignable".  Reported as a
          # supporting fact, not counted.
          soft=[r'^Check that \(\(uint8_t \*\)dst\)\[\(signed long int\)i\] is assignable'],
-         wip=True, **L9),
+         est_s=120, wip=False, **L9),
     # C09: compressor: every write inside dst, result <= bound, bound-sized buffer always enough
     dict(name='c09_lz4_compress', props=['C09', 'C10'], entry='h_lz4_compress', enforce='carquet_lz4_compress',
          replace=['lz4_count', 'carquet_lz4_compress_bound'], unwindset=UW, min_loop_obligations=4, est_s=300,
